@@ -169,8 +169,10 @@ func process(in io.Reader, out io.Writer, p *Palette, s stack.Similarity, pf pat
 			continue
 		}
 		if len(suffix) != 0 {
-			if _, err1 := out.Write(suffix); err == nil {
-				err = err1
+			if _, err1 := out.Write(suffix); err1 != nil && (err == nil || err == io.EOF) {
+				// A failure to flush the remainder must not be hidden by the
+				// end of the input.
+				return err1
 			}
 		}
 		if err == io.EOF {
